@@ -8,6 +8,7 @@ import RtcModel.Lemmas.SctpOpen
 import RtcModel.Lemmas.SctpPr
 import RtcModel.Lemmas.SctpDcepRun
 
+import RtcModel.SctpSend
 namespace RtcModel.Theorems.C12
 open RtcModel.Sctp RtcModel.Generated
 
@@ -339,5 +340,64 @@ theorem close_ops_are_steps (e : Ep) (hall : ∀ x ∈ e.rx.pl.chans, CloseInv x
 
 example : closes (([CloseStep.cdcBegin, .cdcBegin, .guard, .cdcEnd, .pcClose, .cdcEnd].foldl closeStep
     { id := 1, ordered := true, state := 1, events := [.open_] })) = 1 := by decide
+
+/-! ### the sending side of partial reliability -/
+
+/-- **abandon_only_with_cause_partial**: `update_advanced_peer_ack_point` abandons a record only if
+an unacknowledged record with the same (stream, SSN) key has exhausted its retransmissions or its
+lifetime. Partial: that key identifies the *message* only on ordered channels; on an unordered
+channel every message has SSN 0 (witness below). -/
+theorem abandon_only_with_cause_partial (expired : List UInt32) (q : List SRec) (flight : Nat) :
+    ∀ r' ∈ (abandonMark (abandonSet expired q) q flight).1,
+      (r' ∈ q) ∨ (∃ c ∈ q, c.sid = r'.sid ∧ c.ssn = r'.ssn ∧ c.acked = false ∧ shouldAbandon expired c = true) := by
+  have key : ∀ (set : List (UInt16 × UInt16)) (l : List SRec) (fl : Nat),
+      ∀ r' ∈ (abandonMark set l fl).1, r' ∈ l ∨ set.contains (r'.sid, r'.ssn) = true := by
+    intro set l
+    induction l with
+    | nil => intro fl r' h; simp [abandonMark] at h
+    | cons r rest ih =>
+      intro fl r' h
+      unfold abandonMark at h
+      split at h
+      · next hc =>
+        simp only [List.mem_cons] at h
+        cases h with
+        | inl h1 => right; rw [h1]; exact hc
+        | inr h1 =>
+          cases ih _ r' h1 with
+          | inl h2 => left; simp [h2]
+          | inr h2 => right; exact h2
+      · simp only [List.mem_cons] at h
+        cases h with
+        | inl h1 => left; simp [h1]
+        | inr h1 =>
+          cases ih _ r' h1 with
+          | inl h2 => left; simp [h2]
+          | inr h2 => right; exact h2
+  intro r' hr'
+  cases key _ q flight r' hr' with
+  | inl h => exact Or.inl h
+  | inr h =>
+    right
+    have hm : (r'.sid, r'.ssn) ∈ abandonSet expired q := by simpa using h
+    simp only [abandonSet, List.mem_map, List.mem_filter, Bool.and_eq_true, Bool.not_eq_true'] at hm
+    obtain ⟨c, ⟨hc, ⟨⟨h1, _⟩, h3⟩⟩, heq⟩ := hm
+    have e1 : c.sid = r'.sid := congrArg Prod.fst heq
+    have e2 : c.ssn = r'.ssn := congrArg Prod.snd heq
+    exact ⟨c, hc, e1, e2, h1, h3⟩
+
+/-- **unordered_abandon_collateral_witness** (recorded finding
+`pr:message-abandoned-without-cause:unordered-channel-ssn-always-0`): two one-chunk messages on the
+unordered max-retransmits-2 channel 2; the first was sent three times (so it is to be
+abandoned), the second was sent once and is still in flight. Both are abandoned, the advanced peer
+ack point moves past both and the FORWARD-TSN makes the peer skip the second message too — although
+nothing was wrong with it (it may even have arrived). -/
+theorem unordered_abandon_collateral_witness :
+    let q : List SRec := [{ tsn := 10, len := 100, transmitCount := 3, sid := 2, ssn := 0, flags := 7, maxRetransmits := some 2 },
+                           { tsn := 11, len := 100, transmitCount := 1, sid := 2, ssn := 0, flags := 7, maxRetransmits := some 2 }]
+    shouldAbandon [] q[0] = true ∧ shouldAbandon [] q[1] = false ∧
+    (updateAdvanced [] q 200 9 9 false []).advanced = 11 ∧ (updateAdvanced [] q 200 9 9 false []).sentQ = [] ∧
+    encForwardTsn 11 9 [(2, 0)] = some [192, 0, 0, 12, 0, 0, 0, 11, 0, 2, 0, 0] := by
+  decide
 
 end RtcModel.Theorems.C12
